@@ -95,6 +95,7 @@ B_P_TABLE_TOTAL = "C08:P:lossy-nonuniform:table-total"
 B_P_LOSSY_POSTSEL = "C08:P:lossy+postselected:fock_probabilities:raises"
 B_F_VALIDATE = "C08:F:validate-disagrees:negative-rounding-on-diagonal"
 B_FPF_SMALL = "C08:FPF:cutoff<=d:raises"
+B_P_PS_SUPER = "C08:P:postselect:superposition-of-unequal-particle-numbers:state_vector"
 
 
 # ------------------------------------------------------------------ matrices from seeds
@@ -540,6 +541,27 @@ def inv_fermionic_fock(state, rng, full_space, info):
 
 # ------------------------------------------------------------------ the sequence property
 
+def invariant(sim, state, desc, rng, pure_so_far, binfo, bi, ctx, lossy, nonuniform,
+              postselected, n0, fg_extra):
+    if sim == "G":
+        inv_gaussian(state, desc["hbar"], desc["cutoff"], rng, pure_so_far, binfo,
+                     heavy=(bi < 2))
+        return None
+    if sim == "F":
+        return inv_fock_mixed(state, rng, binfo, ctx)
+    if sim == "PF":
+        if type(state).__name__ == "FockState":  # after Attenuator (last step)
+            return inv_fock_mixed(state, rng, binfo, ctx)
+        return inv_fock_pure(state, rng, binfo)
+    if sim == "P":
+        return inv_passive(state, binfo, lossy, nonuniform, postselected,
+                           desc["cutoff"] > n0)
+    if sim == "FG":
+        inv_fermionic_gaussian(state, rng, pure_so_far, binfo, fg_extra)
+        return None
+    return inv_fermionic_fock(state, rng, desc["cutoff"] > desc["d"], binfo)
+
+
 def step_name(s):
     return s.get("g") or s.get("m") or "PostSelectPhotons"
 
@@ -637,25 +659,20 @@ def prop_sequence(desc, ctx):
                 ctx.count("tiny_branch_skipped")
                 continue
             binfo = info if len(branches) == 1 else info + f" branch {branch_key(b)}"
-            if sim == "G":
-                inv_gaussian(state, desc["hbar"], desc["cutoff"], rng, pure_so_far, binfo,
-                             heavy=(bi < 2))
-                val = None
-            elif sim == "F":
-                val = inv_fock_mixed(state, rng, binfo, ctx)
-            elif sim == "PF":
-                if type(state).__name__ == "FockState":  # after Attenuator (last step)
-                    val = inv_fock_mixed(state, rng, binfo, ctx)
-                else:
-                    val = inv_fock_pure(state, rng, binfo)
-            elif sim == "P":
-                val = inv_passive(state, binfo, lossy, nonuniform, postselected,
-                                  desc["cutoff"] > n0)
-            elif sim == "FG":
-                inv_fermionic_gaussian(state, rng, pure_so_far, binfo, fg_extra)
-                val = None
-            else:
-                val = inv_fermionic_fock(state, rng, desc["cutoff"] > desc["d"], binfo)
+            try:
+                val = invariant(sim, state, desc, rng, pure_so_far, binfo, bi, ctx, lossy,
+                                nonuniform, postselected, n0, fg_extra)
+            except Violation:
+                raise
+            except NotImplementedCalculation:
+                ctx.count("documented_unsupported")
+                continue
+            except Exception as e:
+                import traceback
+                fr = traceback.extract_tb(e.__traceback__)[-1]
+                raise Violation(f"C08:{sim}:getter-raises:{type(e).__name__}:{fr.name}",
+                                f"reading the state raised {type(e).__name__}: "
+                                f"{str(e)[:200]} (in {fr.name}) {binfo}")
             if val is not None:
                 cur[(bi, branch_key(b))] = val
         # consecutive prefixes
@@ -873,6 +890,10 @@ def fock_sequence(draw, sim):
         else:
             if sim == "P" and lossy:
                 excl.append(B_P_LOSSY_POSTSEL)
+                continue
+            if sim == "P" and superposed and len(
+                    {sum(o) for o, _ in progs.prep_terms(prep, d)}) > 1:
+                excl.append(B_P_PS_SUPER)
                 continue
             k = draw(st.integers(1, len(active) - 1))
             modes = draw(progs.ordered_modes(d, k, active))
@@ -1186,6 +1207,43 @@ def prop_fpf_small(case, ctx):
     inv_fermionic_fock(state, progs.rng_of(1), False, "[fpf_small_cutoff]")
 
 
+def p_ps_super_cases(tier):
+    return [{"terms": t} for t in (
+        [[[0, 0], 0.6], [[1, 0], 0.8]], [[[1, 0], 0.8], [[0, 0], 0.6]],
+        [[[0, 0], 0.6], [[1, 1], 0.8]], [[[1, 1], 0.8], [[0, 0], 0.6]],
+        [[[1, 0], 0.6], [[1, 1], 0.8]], [[[1, 1], 0.48], [[0, 1], 0.6], [[1, 0], 0.64]])]
+
+
+def prop_p_ps_super(case, ctx):
+    """PostSelectPhotons((1,)) on mode 0 of a superposition of different particle numbers
+    (no gate): the remaining state is sum of the terms with n_0 = 1."""
+    ctx.case(case, True, ["p_postselect_superposition"])
+    terms = {tuple(o): a for o, a in case["terms"]}
+    n = max(sum(o) for o in terms)
+    with pq.Program() as program:
+        pq.Q() | pq.FockStateVector(terms)
+        pq.Q(0) | pq.PostSelectPhotons((1,))
+    what = f"PassiveSimulator(d=2, cutoff={n + 1}): FockStateVector({terms}); " \
+           f"PostSelectPhotons((1,)) on mode 0"
+    want = {}
+    for o, a in terms.items():
+        if o[0] == 1:
+            want[(o[1],)] = want.get((o[1],), 0.0) + a * a
+    with warnings.catch_warnings():
+        warnings.simplefilter("ignore")
+        state = pq.PassiveSimulator(d=2, config=pq.Config(cutoff=n + 1)).execute(
+            program, shots=None).state
+        try:
+            got = {k: float(v) for k, v in state.fock_probabilities_map.items()}
+        except Exception as e:
+            raise Violation(B_P_PS_SUPER, f"{what}: state.fock_probabilities raises "
+                                          f"{type(e).__name__}: {str(e)[:100]}")
+    bad = max(abs(got.get(k, 0.0) - want.get(k, 0.0)) for k in set(got) | set(want))
+    if bad > 1e-9:
+        raise Violation(B_P_PS_SUPER, f"{what}: fock_probabilities_map {got}, the "
+                                      f"projection of the input gives {want}")
+
+
 def p_lossy_cases(tier):
     out = []
     for what in ("validate-uniform", "validate-nonuniform", "table-nonuniform",
@@ -1258,29 +1316,49 @@ def prop_p_lossy(case, ctx):
 
 # ------------------------------------------------------------------ parts
 
+def single_origin(prop):
+    """Re-raise every Violation from ONE source line.  Hypothesis keys distinct failures
+    on the raise location and shrinks each separately; the driver only remembers the last
+    failing case, so with many raise sites and an exhausted shrink budget the final replay
+    of another origin would look flaky (harness error).  One origin -> one shrink target;
+    other buckets are found in the driver's later rounds."""
+    def wrapped(case, ctx):
+        err = None
+        try:
+            prop(case, ctx)
+        except Violation as v:
+            err = (v.bucket, v.message)
+        if err is not None:
+            raise Violation(*err)
+    wrapped.__name__ = prop.__name__
+    return wrapped
+
+
 def parts(tier):
     ex = lambda q, t: {"quick": q, "thorough": t}
     bud = lambda q, t: {"quick": q, "thorough": t}
     search = [
-        Part("validator", prop_validator, strategy=validator_case(),
+        Part("validator", single_origin(prop_validator), strategy=validator_case(),
              examples=ex(400, 4000), budget_s=bud(15, 200)),
-        Part("G", prop_sequence, strategy=gaussian_sequence(),
+        Part("G", single_origin(prop_sequence), strategy=gaussian_sequence(),
              examples=ex(640, 8000), budget_s=bud(40, 1200)),
-        Part("PF", prop_sequence, strategy=fock_sequence("PF"),
+        Part("PF", single_origin(prop_sequence), strategy=fock_sequence("PF"),
              examples=ex(480, 6000), budget_s=bud(25, 900)),
-        Part("F", prop_sequence, strategy=fock_sequence("F"),
+        Part("F", single_origin(prop_sequence), strategy=fock_sequence("F"),
              examples=ex(320, 5000), budget_s=bud(30, 900)),
-        Part("P", prop_sequence, strategy=fock_sequence("P"),
+        Part("P", single_origin(prop_sequence), strategy=fock_sequence("P"),
              examples=ex(400, 5000), budget_s=bud(20, 600)),
-        Part("FG", prop_sequence, strategy=fermionic_sequence("FG"),
+        Part("FG", single_origin(prop_sequence), strategy=fermionic_sequence("FG"),
              examples=ex(320, 5000), budget_s=bud(20, 600)),
-        Part("FPF", prop_sequence, strategy=fermionic_sequence("FPF"),
+        Part("FPF", single_origin(prop_sequence), strategy=fermionic_sequence("FPF"),
              examples=ex(320, 5000), budget_s=bud(15, 600)),
     ]
     # small dedicated parts for the regions that the searches exclude by construction
     known = [
         Part("pf_gate_after_attenuator", prop_pf_att, kind="enum", cases=pf_att_cases),
         Part("p_lossy", prop_p_lossy, kind="enum", cases=p_lossy_cases),
+        Part("p_postselect_superposition", prop_p_ps_super, kind="enum",
+             cases=p_ps_super_cases),
         Part("dgc_validity", prop_dgc, kind="enum", cases=dgc_cases),
         Part("f_validate", prop_f_validate, kind="enum", cases=f_validate_cases),
         Part("fpf_small_cutoff", prop_fpf_small, kind="enum", cases=fpf_small_cases),
